@@ -16,6 +16,10 @@ CONFIGS = {
     "w8": {"cmake": ["-DARCH=", "-DWSIZE=8", "-DBN_PRECI=256", "-DWITH=BN;DV;MD"], "cflags": "-O2"},
     "w8-san": {"cmake": ["-DARCH=", "-DWSIZE=8", "-DBN_PRECI=256", "-DWITH=BN;DV;MD"], "cflags": SAN},
     "p255": {"cmake": ["-DFP_PRIME=255"], "cflags": "-O2"},
+    # the Edwards module chooses its coordinate system at compile time (ED_ADD): the default above is PROJC;LWNAF;COMBS;INTER
+    "p255-extnd": {"cmake": ["-DFP_PRIME=255", "-DED_METHD=EXTND;SLIDE;LWNAF;INTER"], "cflags": "-O2"},
+    "p255-basic": {"cmake": ["-DFP_PRIME=255", "-DED_METHD=BASIC;MONTY;COMBD;JOINT"], "cflags": "-O2"},
+    "p255-extnd-san": {"cmake": ["-DFP_PRIME=255", "-DED_METHD=EXTND;BASIC;BASIC;TRICK"], "cflags": SAN},
     "p381": {"cmake": ["-DFP_PRIME=381", "-DFP_QNRES=on", "-DFPX_METHD=INTEG;INTEG;LAZYR",
                        "-DPP_METHD=LAZYR;OATEP"], "cflags": "-O2"},
     "cov": {"cmake": [], "cflags": "-O1 -g -finstrument-functions"},
